@@ -107,6 +107,12 @@ def build(dendropy, am, route, src, evs, model_layout=True):
             return X.build_exported(dendropy, am, JUNK[t])
         if route == "exported_typed":
             return X.build_exported_typed(dendropy, am, JUNK[t])
+        if route in ("observed_then_rows", "observed_then_columns"):
+            # two-phase history: build, observe (write / iterate), complete by a row or column operation; the concrete
+            # operation and observation rotate with the case
+            ops = X.ROW_OPS if route == "observed_then_rows" else X.COL_OPS
+            k = src.get("variant", 0) if isinstance(src, dict) else 0
+            return X.build_observed(dendropy, am, ops[k % len(ops)], X.OBSERVATIONS[(k // len(ops)) % len(X.OBSERVATIONS)], JUNK[t])
     except Exception as ex:
         raise core.MachineryError("construction route %s failed on %s: %r" % (route, core.dumps(am)[:300], ex))
     if route.startswith("parsed_"):
@@ -254,8 +260,8 @@ def project_components(ds):
         pm = X.project_matrix(m)
         comps.append({"kind": "CHARACTERS", "nslabels": [X.chars(x.label or "") for x in ns._taxa], "taxa": pm["taxa"],
                       "rows": pm["rows"], "leaves": [],
-                      "typed": all(all(ct is not None for ct in m[x]._character_types) for x in m),
-                      "taxa_idx": [(ids.index(id(x)) + 1) if id(x) in ids else 0 for x in m]})
+                      "typed": all(all(ct is not None for ct in sq._character_types) for sq in m._taxon_sequence_map.values()),
+                      "taxa_idx": [(ids.index(id(x)) + 1) for x in ns._taxa if x in m._taxon_sequence_map]})
     for tl in ds.tree_lists:
         ns = tl.taxon_namespace
         ids = [id(x) for x in ns._taxa]
@@ -483,7 +489,10 @@ def run_case(case):
 def _model_matrix(dendropy, case, rng, tmpdir, evs):
     am = case["m"]
     t = am["type"]
-    M = build(dendropy, am, case["route"], case["src"], evs, model_layout=True)
+    src = case["src"]
+    if case["route"].startswith("observed_"):
+        src = dict(src, variant=case.get("seed", 0))
+    M = build(dendropy, am, case["route"], src, evs, model_layout=True)
     if M is None:
         return
     for k, (fmt, lay) in enumerate(case["targets"]):
@@ -518,6 +527,8 @@ def _random_matrix(dendropy, case, rng, tmpdir, evs):
                 route, src = "from_dict", {}
     if route == "exported_typed" and t not in X.SUPPORTS["nexml"]:
         route = "exported"
+    if route.startswith("observed_"):
+        src = {"variant": rng.randrange(1000)}
     if route.startswith("typed_"):
         if t not in X.SUPPORTS["nexml"]:
             route = "concatenated"
@@ -666,7 +677,7 @@ def add_pairs_and_converts(mcases, quick):
 def random_cases(ctx, n_mat, n_ds):
     rng = random.Random(ctx.seed * 7919 + 9)
     routes = ["from_dict", "concatenated", "exported", "exported_typed", "parsed_nexus", "parsed_phylip", "parsed_fasta", "parsed_nexml",
-              "typed_self_concatenated", "typed_self_extended", "typed_aba"]
+              "typed_self_concatenated", "typed_self_extended", "typed_aba", "observed_then_rows", "observed_then_columns"]
     styles = ["plain", "plain", "long", "space", "punct", "xml"]
     out = []
     for i in range(n_mat):
